@@ -73,3 +73,34 @@ def replay_typed(proc, bit, pytype, pan):
     if str(got) != want and not (pytype in ('int', 'long') and proc == 'PAN-PREFIX' and got == int(want)):
         return True, '%s with python type %s: DE%d came back as %r (clear PAN %s)' % (proc, pytype, bit, got, pan), 'C16/proc-value'
     return False, 'ok', None
+
+
+def replay_default_route(proc, n, via):
+    import io
+    from cardutil import iso8583, mciipm
+    from cardutil.config import config
+    from . import packaged
+    new = packaged.bit_config_copy()
+    new['2']['field_processor'] = proc
+    v = _pan(n)
+    wire = iso8583.dumps({'MTI': '1240', 'DE2': v, 'DE3': '000000'}, iso_config=new)
+    old = config['bit_config']
+    config['bit_config'] = new
+    try:
+        try:
+            if via == 'loads':
+                d = iso8583.loads(wire)
+            else:
+                f = io.BytesIO()
+                w = mciipm.VbsWriter(f)
+                w.write(wire)
+                w.close()
+                d = next(mciipm.IpmReader(f))
+        except Exception as e:
+            return True, 'raised %s' % type(e).__name__, 'C16/exception'
+    finally:
+        config['bit_config'] = old
+    want = v[:6] + '*' * (n - 10) + v[-4:] if proc == 'PAN' else v[:9]
+    if d.get('DE2') != want:
+        return True, 'DE2 came back as %r under the installed default configuration' % d.get('DE2'), 'C16/proc-value'
+    return False, 'ok', None
